@@ -4,13 +4,13 @@ from . import token_contracts as tc
 
 PROP = "C08"
 LEVEL = 'proof'
-EXPLANATION = ("Deductive: the scanner invariant (cursor in range, current/lookahead characters agree with the string) is preserved by every TokenParser method; no method raises for any string (safety obligations, incl. the lookahead at the end of the input); every loop and the recursion of the quoted-string parser decrease len(string) - cursor, so tokenising terminates; ArgvArgs / StringArgs establish option_tokens == tokens before the first '--' and has_option_token is membership in that prefix; StringArgs.__init__ writes nothing but its own two fields and objects it creates (its tokenizer is private to the call: frame obligation).  Bounded: exhaustive strings up to length 6/7, the quoting inverse law over token lists, str.split equivalence, string-vs-argv indistinguishability.")
+EXPLANATION = ("Deductive: the scanner invariant (cursor in range, current/lookahead characters agree with the string) is preserved by every TokenParser method; no method raises for any string (safety obligations, incl. the lookahead at the end of the input); every loop and the recursion of the quoted-string parser decrease len(string) - cursor, so tokenising terminates; ArgvArgs / StringArgs establish option_tokens == tokens before the first '--' and has_option_token is membership in that prefix; StringArgs.__init__ writes nothing but its own two fields and objects it creates (its tokenizer is private to the call: frame obligation); both forms hand out their token and option-token lists themselves, not copies (the help resolver edits the list in place: a form that copied would resolve differently).  Bounded: exhaustive strings up to length 6/7, the quoting inverse law over token lists, str.split equivalence, string-vs-argv indistinguishability.")
 LEVEL_NOTE = ('assumes: itertools.takewhile returns the longest prefix satisfying the predicate; str.isspace exact on ASCII; the quoting round trip (induction over a spec lexer) is bounded only and labelled so')
 HANG_IS_VIOLATION = True
 TARGETS = [tc.TP + m for m in ("_next", "_parse_escape_sequence", "_parse_quoted_string", "_parse_token", "_parse", "parse")]
 TARGETS += [tc.M_ARGV + ":ArgvArgs.__init__", tc.M_SARGS + ":StringArgs.__init__",
             tc.M_ARGV + ":ArgvArgs.has_option_token", tc.M_SARGS + ":StringArgs.has_option_token",
-            tc.M_ARGV + ":ArgvArgs.has_token", tc.M_SARGS + ":StringArgs.has_token"]
+            tc.M_ARGV + ":ArgvArgs.has_token", tc.M_SARGS + ":StringArgs.has_token"] + tc.TOKEN_PROPS
 LEMMAS = []
 try:
     from .C08_bounded import bounded, BOUNDED_RULE  # noqa
